@@ -116,6 +116,8 @@ class Stats:
             for k, v in d["extra"].items():
                 if isinstance(v, (int, float)) and isinstance(s.extra.get(k, 0), (int, float)):
                     s.extra[k] = s.extra.get(k, 0) + v
+                elif isinstance(v, dict) and isinstance(s.extra.get(k, {}), dict):
+                    s.extra.setdefault(k, {}).update(v)
                 else:
                     s.extra.setdefault(k, v)
             s.samples.extend(d["samples"])
